@@ -135,20 +135,20 @@ Definition tags_get (t : wtags) (key : str) : option str :=
   end.
 
 (* Tags.Set.  None: an error is returned and the map is unchanged.  Some t': nil error and
-   t' is the map the caller holds afterwards.  On a nil receiver the Go code allocates a
-   map that only the method sees: no error, and the caller's Tags stay nil. *)
+   t' is the map the caller holds afterwards.  A nil receiver is an error (a value-receiver
+   method cannot allocate the map for the caller; repaired in 637a0fa). *)
 Definition tags_set (t : wtags) (key value : str) : option wtags :=
-  if negb (valid_tag key) then None
-  else
-    let v := tag_escape value in
-    if (Nat.ltb 0 (length v) && negb (valid_tag_value v))%bool then None
+  match t with
+  | None => None
+  | Some m =>
+    if negb (valid_tag key) then None
     else
-      let cur := match t with None => 0%nat | Some m => length (tagmap_bytes m) end in
-      if Nat.ltb max_tag_length (cur + length key + length v + 2) then None
-      else match t with
-           | None => Some None
-           | Some m => Some (Some (aset key v m))
-           end.
+      let v := tag_escape value in
+      if (Nat.ltb 0 (length v) && negb (valid_tag_value v))%bool then None
+      else
+        if Nat.ltb max_tag_length (length (tagmap_bytes m) + length key + length v + 2) then None
+        else Some (Some (aset key v m))
+  end.
 
 (* Tags.Remove *)
 Definition tags_remove (t : wtags) (key : str) : wtags * bool :=
